@@ -128,6 +128,31 @@ def corr(ctx):
         else:
             ctx.corr(which, False, f'{which} metric={metric} algo={algo} shape={mask.shape} margin={margin:.3g} '
                      f'code={want.tolist()} model={got.tolist()}', {'mask': mask, 'metric': metric, 'algo': algo})
+    # (4) built-in spatial/spectral alignment of the integration models, per bin, floats to 1e-9
+    lines, wants = [], []
+    for _ in range(ctx.n(60, 1000)):
+        K = int(rng.integers(1, 5))
+        T = int(rng.integers(1, 7))
+        F = int(rng.integers(1, 4))
+        scale = float(rng.choice([0.5, 3.0, 30.0]))
+        sp, sc = rng.normal(size=(F, K, T)) * scale, rng.normal(size=(F, K, T)) * scale
+        w = rng.random((F, K, T)) + 0.05
+        w /= w.sum(1, keepdims=True)
+        want = mmu.log_pdf_to_affiliation_for_integration_models_with_inline_pa(w, sp.copy(), sc.copy())
+        for f in range(F):
+            lines.append(f'inlinepa {K} {T} {fbits(w[f])} {fbits(sp[f])} {fbits(sc[f])}')
+            wants.append((want[f], sp[f], sc[f]))
+    for (want, sp, sc), o in zip(wants, run_driver(lines)):
+        got = parse_floats(o).reshape(want.shape)
+        if np.allclose(got, want, rtol=1e-9, atol=1e-300):
+            ctx.corr('inline_pa', True)
+        else:
+            # a different permutation is chosen only if two criterion values tie within rounding
+            vals = sorted(_aux(sp[list(p)] + sc)[0] for p in itertools.permutations(range(len(sp))))
+            if len(vals) > 1 and abs(vals[-1] - vals[-2]) < 1e-9 * (1 + abs(vals[-1])):
+                ctx.count('tie-within-rounding:inline_pa')
+            else:
+                ctx.corr('inline_pa', False, f'code={want.tolist()} model={got.tolist()}', {'spatial': sp, 'spectral': sc})
     if metas:
         ctx.sample({'op': metas[-1][0], 'metric': metas[-1][2], 'algo': metas[-1][3], 'mask_shape': list(metas[-1][1].shape)})
 
